@@ -2,7 +2,7 @@
 //   vcpus <N> <ws 0|1>                      N vCPUs; ws=1: active+passive work stealing on every vCPU
 //   thread <name> <vcpu|-> <joinable> <stealable> <retval> ops...
 //        vcpu "-": created by another thread (op `c`), otherwise created by that vCPU's main thread at start
-//        ops: y | s<us> | m<vcpu> (migrate self) | j<name> (join) | c<name> (create)
+//        ops: y | s<us> | m<vcpu> (migrate self) | j<name> (join) | c<name> (create) | k (interrupt the thread that is joining me)
 //   run
 // Every event is stamped with a global atomic sequence number; the log is printed in that order:
 //   create <t> by <p> | begin <t> <v> | leave <t> <v> | enter <t> <v> | end <t> <v> <val> | joined <j> <t> <val> | count <v> <before> <after>
@@ -32,10 +32,12 @@ static void ev(int kind, int t, int a = 0, long b = 0) { long i = logpos.fetch_a
 enum { CREATE, BEGIN, LEAVE, ENTER, END, JOINED, OVERLAP, MIGFAIL };
 
 struct T { std::string name; int id; int vcpu; bool joinable, stealable; long retval; std::vector<std::string> ops;
-    std::atomic<thread*> th{nullptr}; std::atomic<join_handle*> jh{nullptr}; std::atomic<int> inside{0}; std::atomic<int> begun{0}; };
+    std::atomic<thread*> th{nullptr}; std::atomic<join_handle*> jh{nullptr}; std::atomic<int> inside{0}; std::atomic<int> begun{0};
+    std::atomic<thread*> joiner{nullptr}; };
 static std::vector<T*> threads; static std::map<std::string, int> ids;
 static std::vector<vcpu_base*> vcpus; static std::atomic<int> vready{0}, ended{0};
-static int NV = 1, WS = 0;
+static std::atomic<int> accepting[64];
+static int NV = 1, WS = 0, LAZY = -1;    // LAZY: a vCPU whose main blocks outside photon for a while and then calls vcpu_fini() right away
 static int my_vcpu() { auto v = get_vcpu(); for (size_t i = 0; i < vcpus.size(); ++i) if (vcpus[i] == v) return i; return -1; }
 
 static void* entry(void* arg);
@@ -57,9 +59,10 @@ static void* entry(void* arg) {
         char k = op[0]; std::string a = op.substr(1);
         if (k == 'y') { leave(t); thread_yield(); enter(t); }
         else if (k == 's') { leave(t); thread_usleep(strtoul(a.c_str(), 0, 10)); enter(t); }
-        else if (k == 'm') { int v = atoi(a.c_str()) % NV; leave(t); int r = thread_migrate(CURRENT, vcpus[v]); enter(t); if (r != 0) ev(MIGFAIL, t->id, v); }
+        else if (k == 'm') { int v = atoi(a.c_str()) % NV; if (!accepting[v].load()) continue; leave(t); int r = thread_migrate(CURRENT, vcpus[v]); enter(t); if (r != 0) ev(MIGFAIL, t->id, v); }
         else if (k == 'j') { auto o = threads[ids[a]]; join_handle* jh = o->jh.exchange(nullptr);
-            if (jh) { leave(t); void* r = thread_join(jh); enter(t); ev(JOINED, t->id, o->id, (long)(intptr_t)r); } }
+            if (jh) { o->joiner = CURRENT; leave(t); void* r = thread_join(jh); o->joiner = nullptr; enter(t); ev(JOINED, t->id, o->id, (long)(intptr_t)r); } }
+        else if (k == 'k') { auto j = t->joiner.load(); if (j) thread_interrupt(j, EINTR); }   // kick whoever is blocked joining me: it must keep waiting (it stays blocked until I end, so it is alive)
         else if (k == 'c') { auto o = threads[ids[a]]; if (!o->th.load() && o->vcpu < 0) { o->vcpu = -2; spawn(o, t->id); } }
     }
     ev(END, t->id, my_vcpu(), t->retval);
@@ -74,11 +77,15 @@ static void vmain(int v) {
     phase[v] = 1;
     vcpu_init(WS ? (VCPU_ENABLE_ACTIVE_WORK_STEALING | VCPU_ENABLE_PASSIVE_WORK_STEALING) : 0);
     fd_events_init(INIT_EVENT_EPOLL);
-    vcpus[v] = get_vcpu();
+    vcpus[v] = get_vcpu(); accepting[v] = 1;
     counts[v][0] = get_info(INFO_THREAD_NUM);
     vready++; phase[v] = 2;
     while (vready < NV) thread_usleep(100);
     for (auto t : threads) if (t->vcpu == v) spawn(t, -1 - v);
+    if (v == LAZY) {      // threads migrated here meanwhile sit in the standby queue: vcpu_fini() must run them to completion
+        ::usleep(3000); accepting[v] = 0; ::usleep(3000);      // no new migrations towards this vCPU from now on; those already issued are in its standby queue
+        phase[v] = 6; counts[v][1] = counts[v][0]; fd_events_fini(); phase[v] = 7; vcpu_fini(); phase[v] = 8; return;
+    }
     phase[v] = 3;
     // wait until every scripted thread has ended (threads never created by anybody are not counted)
     int expected = 0;
@@ -125,7 +132,7 @@ static int run_program(const std::vector<std::string>& lines) {
     logbuf = new Rec[MAXLOG];
     for (auto& l : lines) {
         std::istringstream is(l); std::string w; is >> w;
-        if (w == "vcpus") is >> NV >> WS;
+        if (w == "vcpus") { is >> NV >> WS; std::string lz; if (is >> lz) LAZY = atoi(lz.c_str()); }
         else if (w == "thread") { auto t = new T; std::string vc; int j, s; is >> t->name >> vc >> j >> s >> t->retval; t->joinable = j; t->stealable = s;
             t->vcpu = vc == "-" ? -1 : atoi(vc.c_str()); std::string o; while (is >> o) t->ops.push_back(o); t->id = threads.size(); ids[t->name] = t->id; threads.push_back(t); }
     }
